@@ -186,4 +186,128 @@ theorem remap_unique_of_nodup' (row s : List Rat) (idx₁ idx₂ : List Nat)
     rw [gather_length g2]; simpa using h₂.1.length_eq
   rw [g1, g2, zip_perm_unique_of_nodup s o1 o2 l1 l2 hs hp]
 
+
+/-- the sorted (value, index) pairs behind `argsort` -/
+def sortedPairs (s : List Rat) : List (Rat × Nat) :=
+  s.zipIdx.mergeSort (fun a b => decide (a.1 ≤ b.1))
+
+theorem argsort_eq (s : List Rat) : argsort s = (sortedPairs s).map (·.2) := rfl
+
+theorem sortedPairs_pairwise (s : List Rat) : (sortedPairs s).Pairwise (fun a b => a.1 ≤ b.1) := by
+  have := List.pairwise_mergeSort (le := fun a b : Rat × Nat => decide (a.1 ≤ b.1))
+    (fun a b c hab hbc => by
+      simp only [decide_eq_true_eq] at hab hbc ⊢; exact Rat.le_trans hab hbc)
+    (fun a b => by
+      simp only [Bool.or_eq_true, decide_eq_true_eq]; exact Rat.le_total) s.zipIdx
+  exact this.imp (fun h => by simpa using h)
+
+theorem sortedPairs_mem (s : List Rat) (x : Rat × Nat) (hx : x ∈ sortedPairs s) :
+    s[x.2]? = some x.1 := by
+  have : x ∈ s.zipIdx := (List.mergeSort_perm _ _).mem_iff.1 hx
+  exact List.mem_zipIdx_iff_getElem?.1 this
+
+/-- `argsortNat` of a permutation of the range is its inverse: `p[q[a]] = a` -/
+theorem argsortNat_inverse (p : List Nat) (hp : p.Perm (List.range p.length)) (a : Nat)
+    (ha : a < p.length) :
+    ∃ k, (argsortNat p)[a]? = some k ∧ p[k]? = some a := by
+  let U := p.zipIdx.mergeSort (fun a b => decide (a.1 ≤ b.1))
+  have hUp : U.Perm p.zipIdx := List.mergeSort_perm _ _
+  have hUs : U.Pairwise (fun a b => a.1 ≤ b.1) := by
+    have := List.pairwise_mergeSort (le := fun a b : Nat × Nat => decide (a.1 ≤ b.1))
+      (fun a b c hab hbc => by
+        simp only [decide_eq_true_eq] at hab hbc ⊢; exact Nat.le_trans hab hbc)
+      (fun a b => by
+        simp only [Bool.or_eq_true, decide_eq_true_eq]; exact Nat.le_total _ _) p.zipIdx
+    exact this.imp (fun h => by simpa using h)
+  have hfst0 : p.zipIdx.map (·.1) = p := by
+    simp [List.zipIdx_map_fst]
+  have hfst : U.map (·.1) = List.range p.length := by
+    apply List.Perm.eq_of_pairwise (le := (· ≤ ·))
+    · intro a b _ _ hab hba; exact Nat.le_antisymm hab hba
+    · exact List.pairwise_map.2 hUs
+    · exact (range_pairwise_lt _).imp Nat.le_of_lt
+    · have h2 : (p.zipIdx.map (·.1)).Perm (List.range p.length) := by rw [hfst0]; exact hp
+      exact (hUp.map _).trans h2
+  have hlenU : U.length = p.length := by simpa using hUp.length_eq
+  have haU : a < U.length := by omega
+  have h1 : (U.map (·.1))[a]? = some a := by
+    rw [hfst]; simp [ha]
+  have hUa : U[a].1 = a := by
+    have := h1
+    rw [List.getElem?_map, List.getElem?_eq_getElem haU] at this
+    simpa using this
+  refine ⟨U[a].2, ?_, ?_⟩
+  · show ((U.map (·.2)))[a]? = some U[a].2
+    rw [List.getElem?_map, List.getElem?_eq_getElem haU]; rfl
+  · have hm : U[a] ∈ p.zipIdx := hUp.mem_iff.1 (List.getElem_mem haU)
+    have := List.mem_zipIdx_iff_getElem?.1 hm
+    rw [hUa] at this
+    exact this
+
+/-- the model's own `argsort().argsort()` (stable merge sort, twice) is a rank array -/
+theorem ranks_rankOf (s : List Rat) : RankOf s (ranks s) := by
+  refine ⟨ranks_perm s, ?_⟩
+  have hpl : (argsort s).length = s.length := argsort_length s
+  have hpp : (argsort s).Perm (List.range (argsort s).length) := by
+    rw [hpl]; exact argsort_perm s
+  intro x hx y hy hxy
+  obtain ⟨a, ha⟩ := List.mem_iff_getElem?.1 hx
+  obtain ⟨b, hb⟩ := List.mem_iff_getElem?.1 hy
+  rw [List.getElem?_zip_eq_some] at ha hb
+  obtain ⟨ha1, ha2⟩ := ha
+  obtain ⟨hb1, hb2⟩ := hb
+  have hal : a < s.length := (List.getElem?_eq_some_iff.1 ha2).1
+  have hbl : b < s.length := (List.getElem?_eq_some_iff.1 hb2).1
+  obtain ⟨k, hk1, hk2⟩ := argsortNat_inverse (argsort s) hpp a (by omega)
+  obtain ⟨l, hl1, hl2⟩ := argsortNat_inverse (argsort s) hpp b (by omega)
+  have ek : x.1 = k := by
+    have : (ranks s)[a]? = some k := hk1
+    rw [ha1] at this; exact Option.some.inj this
+  have el : y.1 = l := by
+    have : (ranks s)[b]? = some l := hl1
+    rw [hb1] at this; exact Option.some.inj this
+  rw [ek, el]
+  -- positions k, l in the sorted pairs hold (s[a], a), (s[b], b)
+  rw [argsort_eq, List.getElem?_map] at hk2 hl2
+  have hkV : k < (sortedPairs s).length := by
+    cases h : (sortedPairs s)[k]? with
+    | none => rw [h] at hk2; simp at hk2
+    | some v => exact (List.getElem?_eq_some_iff.1 h).1
+  have hlV : l < (sortedPairs s).length := by
+    cases h : (sortedPairs s)[l]? with
+    | none => rw [h] at hl2; simp at hl2
+    | some v => exact (List.getElem?_eq_some_iff.1 h).1
+  rw [List.getElem?_eq_getElem hkV] at hk2
+  rw [List.getElem?_eq_getElem hlV] at hl2
+  simp only [Option.map_some, Option.some.injEq] at hk2 hl2
+  have vk := sortedPairs_mem s _ (List.getElem_mem hkV)
+  have vl := sortedPairs_mem s _ (List.getElem_mem hlV)
+  rw [hk2, ha2] at vk
+  rw [hl2, hb2] at vl
+  have vk' : (sortedPairs s)[k].1 = x.2 := (Option.some.inj vk).symm
+  have vl' : (sortedPairs s)[l].1 = y.2 := (Option.some.inj vl).symm
+  rcases Nat.lt_trichotomy k l with h | h | h
+  · exact h
+  · subst h
+    rw [vk'] at vl'
+    rw [vl'] at hxy
+    exact absurd hxy (Rat.lt_irrefl)
+  · have := List.pairwise_iff_getElem.1 (sortedPairs_pairwise s) l k hlV hkV h
+    rw [vk', vl'] at this
+    exact absurd hxy (Rat.not_lt.2 this)
+
+
+/-- whatever rank array numpy picked: the same multiset of (ranked value, output value) pairs as
+the model's `remap` (which ranks with a stable sort) -/
+theorem remap_tie_order_independent_model (row s : List Rat) (idx : List Nat)
+    (hlen : s.length = row.length) (h : RankOf s idx) :
+    ∃ out out', gather (sortR row) idx = some out ∧ remap row s = some out' ∧
+      (s.zip out).Perm (s.zip out') :=
+  remap_tie_order_independent' row s idx (ranks s) hlen h (ranks_rankOf s)
+
+/-- without ties the output of the code is the model's `remap`, whatever numpy's sort does -/
+theorem remap_unique_of_nodup (row s : List Rat) (idx : List Nat) (hlen : s.length = row.length)
+    (hs : s.Nodup) (h : RankOf s idx) : gather (sortR row) idx = remap row s :=
+  remap_unique_of_nodup' row s idx (ranks s) hlen hs h (ranks_rankOf s)
+
 end Pyunicorn.Surrogates
